@@ -192,3 +192,22 @@ func (c *Ctx) SaveProducesNothing(ob *core.Obligation, r *Roles) {
 
 var _ = token.ADD
 var _ = types.Typ
+
+// SaveBalanceCells: the balances read by the save runner (results of balance-reader calls).
+func (c *Ctx) SaveBalanceCells(r *Roles) func(fn *ssa.Function) []ssa.Value {
+	save := c.saveRunner()
+	return func(fn *ssa.Function) []ssa.Value {
+		if r == nil || save == nil || fn != save {
+			return nil
+		}
+		var out []ssa.Value
+		for _, ci := range core.Calls(fn) {
+			if call, ok := ci.(*ssa.Call); ok {
+				if sc := call.Call.StaticCallee(); sc != nil && r.IsBalanceReader(sc) {
+					out = append(out, call)
+				}
+			}
+		}
+		return out
+	}
+}
